@@ -151,6 +151,8 @@ open IsoDT.Spec (Date TZ TP)
 open IsoDT.Spec.Posix
 open IsoDT.Gen.Strftime (Fld Fmt Pat Cls Piece fmtOf patOf clsOf)
 
+deriving instance DecidableEq for Except
+
 /-! ### digits -/
 
 theorem dch_eq : Model.Strf.dch = Spec.Posix.dch := rfl
@@ -331,7 +333,6 @@ theorem isWord_toChar (dir : Dir) : isWord dir.toChar = true := by cases dir <;>
 
 theorem toChar_ne_percent (dir : Dir) : dir.toChar ≠ '%' := by cases dir <;> decide
 
-#check @parseFmt.induct
 /-- On a format over the supported directives and literal text, the library's splitter and table
     produce exactly the specification's reading of it. -/
 theorem translate_scan (fmt : List Char) (items : List FItem) (h : parseFmt fmt = some items) :
@@ -341,16 +342,16 @@ theorem translate_scan (fmt : List Char) (items : List FItem) (h : parseFmt fmt 
     simp only [parseFmt, Option.some.injEq] at h
     subst h
     exact ⟨rfl, by simp [piecesOfItems]⟩
-  | case2 c =>
-    simp only [parseFmt] at h
-    by_cases hc : c = '%'
-    · simp [hc] at h
-    · simp only [hc, ↓reduceIte, Option.some.injEq] at h
-      subst h
-      refine ⟨rfl, ?_⟩
-      simp [piecesOfItems, piecesOfItem, hc]
-  | case3 c c' rest hc dir hdir ih =>
-    simp only [parseFmt, hc, ↓reduceIte, hdir] at h
+  | case2 => simp [parseFmt] at h
+  | case3 c hc =>
+    simp only [parseFmt, hc, ↓reduceIte, Option.some.injEq] at h
+    subst h
+    refine ⟨rfl, ?_⟩
+    simp only [piecesOfItems, piecesOfItem, List.flatMap_cons, List.flatMap_nil, List.append_nil,
+      List.mem_singleton, Piece.lit.injEq]
+    exact fun e => hc e.symm
+  | case4 c' rest dir hdir ih =>
+    simp only [parseFmt, ↓reduceIte, hdir] at h
     cases hr : parseFmt rest with
     | none => simp [hr] at h
     | some r =>
@@ -360,14 +361,14 @@ theorem translate_scan (fmt : List Char) (items : List FItem) (h : parseFmt fmt 
       have hc' := ofChar_some c' dir hdir
       subst hc'
       refine ⟨?_, ?_⟩
-      · simp only [scan, hc, isWord_toChar, and_self, ↓reduceIte, translate, lookupDir_toChar, ih1]
+      · simp only [scan, isWord_toChar, and_self, ↓reduceIte, translate, lookupDir_toChar, ih1]
         rfl
       · simp only [piecesOfItems, List.flatMap_cons, List.mem_append, not_or] at ih2 ⊢
         refine ⟨?_, ih2⟩
         cases dir <;> simp [piecesOfItem, piecesOf]
-  | case4 c c' rest hc hdir =>
-    simp [parseFmt, hc, hdir] at h
-  | case5 c c' rest hc ih =>
+  | case5 c' rest hdir =>
+    simp [parseFmt, hdir] at h
+  | case6 c c' rest hc ih =>
     simp only [parseFmt, hc, ↓reduceIte] at h
     cases hr : parseFmt (c' :: rest) with
     | none => simp [hr] at h
@@ -380,6 +381,246 @@ theorem translate_scan (fmt : List Char) (items : List FItem) (h : parseFmt fmt 
         rfl
       · simp only [piecesOfItems, List.flatMap_cons, List.mem_append, not_or] at ih2 ⊢
         refine ⟨?_, ih2⟩
-        simp [piecesOfItem, hc]
+        simp only [piecesOfItem, List.mem_singleton, Piece.lit.injEq]
+        exact fun e => hc e.symm
+
+/-- One unknown `%`-letter anywhere makes the translation fail with `StrftimeSyntaxError`. -/
+theorem translate_unsupported (items : List Item) (c : Char) (hmem : Item.dir c ∈ items)
+    (hc : Dir.ofChar c = none) : translate items = .error .syntax := by
+  induction items with
+  | nil => simp at hmem
+  | cons it rest ih =>
+    cases it with
+    | ch x =>
+      simp only [List.mem_cons, reduceCtorEq, false_or] at hmem
+      simp only [translate, ih hmem]
+    | dir x =>
+      simp only [translate]
+      by_cases hx : x = c
+      · subst hx
+        rw [lookupDir_none x hc]
+      · have hr : Item.dir c ∈ rest := by
+          simp only [List.mem_cons, Item.dir.injEq] at hmem
+          rcases hmem with h | h
+          · exact absurd h.symm hx
+          · exact h
+        rw [ih hr]
+        cases lookupDir x <;> rfl
+
+/-! ### the property getters against the civil date-time -/
+
+theorem unixEpoch_eq : unixEpoch = ⟨.cal 1970 1 1, 0, 0, 0, ⟨0, 0⟩⟩ := by decide
+
+theorem unixEpoch_valid (m : Mode) : unixEpoch.Valid m := by
+  rw [unixEpoch_eq]; cases m <;> decide
+
+theorem unixEpoch_inst (m : Mode) : unixEpoch.inst m = epochInst m := by
+  rw [unixEpoch_eq]
+  simp [TP.inst, Spec.Date.dayNum, TP.secOfDay, TZ.seconds, epochInst]
+
+/-- `seconds_since_unix_epoch` (C18) in the vocabulary of part 1. -/
+theorem secondsSince_spec (m : Mode) (p : TP) (hp : p.Valid m) :
+    secondsSinceUnixEpoch m p = some (p.inst m - epochInst m) := by
+  obtain ⟨dd, hh, mm, ss, e, hl, _, _⟩ := subTP_spec m p unixEpoch hp (unixEpoch_valid m)
+  rw [unixEpoch_inst] at hl
+  simp only [secondsSinceUnixEpoch, e, Option.map_some, Dur.daysAndSeconds, secondsInDay_eq,
+    secondsInHour_eq, secondsInMinute_eq, Option.some.injEq]
+  have e1 : (0 : Int) * (calOf m).roughDaysInYear = 0 := by omega
+  have e2 : (0 : Int) * (calOf m).roughDaysInMonth = 0 := by omega
+  rw [e1, e2]
+  omega
+
+theorem forDump_spec (m : Mode) (p : TP) (hv : p.Valid m) :
+    ∃ p', forDump m p = some p' ∧ p'.Valid m ∧ p'.date.rep ≠ 2 ∧
+      p'.date.dayNum m = p.date.dayNum m ∧ p'.hh = p.hh ∧ p'.mi = p.mi ∧ p'.ss = p.ss ∧ p'.tz = p.tz := by
+  unfold forDump
+  by_cases h : p.date.rep = 2
+  · rw [if_pos h]
+    obtain ⟨r, he, hrv, hrr, hn⟩ := convert_spec m 0 (by omega) p.date hv.1
+    rw [he]
+    refine ⟨{ p with date := r }, rfl, ?_, ?_, hn, rfl, rfl, rfl, rfl⟩
+    · obtain ⟨_, b⟩ := hv
+      exact ⟨hrv, b⟩
+    · show r.rep ≠ 2
+      omega
+  · rw [if_neg h]
+    exact ⟨p, rfl, hv, h, rfl, rfl, rfl, rfl, rfl⟩
+
+theorem isCivil_transfer (m : Mode) (p p' : TP) (c : Civil) (hc : IsCivil m p c)
+    (hn : p'.date.dayNum m = p.date.dayNum m) (h1 : p'.hh = p.hh) (h2 : p'.mi = p.mi) (h3 : p'.ss = p.ss)
+    (h4 : p'.tz = p.tz) : IsCivil m p' c := by
+  obtain ⟨a, b, c1, d, e, f, g, h⟩ := hc
+  refine ⟨a, by rw [hn]; exact b, by rw [hn]; exact c1, by rw [h1]; exact d, by rw [h2]; exact e,
+    by rw [h3]; exact f, by rw [h4]; exact g, ?_⟩
+  rw [h]
+  simp only [TP.inst, TP.secOfDay, hn, h1, h2, h3, h4]
+
+/-- The getters `month_of_year`, `day_of_month`, `day_of_year`, `year`, … of a valid calendar- or
+    ordinal-date point return its civil fields. -/
+theorem dumpCtx_spec (m : Mode) (p : TP) (hv : p.Valid m) (hrep : p.date.rep ≠ 2) (c : Civil)
+    (hc : IsCivil m p c) :
+    dumpCtx m p = some ⟨c.year, c.month, c.day, c.yday, p.hh, p.mi, p.ss, p.tz, c.unix⟩ := by
+  obtain ⟨hcv, hcn, hyd, _, _, _, _, hux⟩ := hc
+  obtain ⟨r0, he0, hv0, hr0, hn0⟩ := convert_spec m 0 (by omega) p.date hv.1
+  obtain ⟨r1, he1, hv1, hr1, hn1⟩ := convert_spec m 1 (by omega) p.date hv.1
+  have e0 : r0 = .cal c.year c.month c.day :=
+    date_unique m r0 (.cal c.year c.month c.day) hv0 hcv (by rw [hr0]; rfl) (by rw [hn0]; exact hcn.symm)
+  obtain ⟨y1, n1, e1⟩ := rep1_ord r1 hr1
+  subst e0 e1
+  have hrange1 := dayNumOrd_range m y1 n1 hv1
+  have hrangec := dayNumCal_range m _ _ _ hcv
+  have hn1' : Spec.dayNumOrd m y1 n1 = p.date.dayNum m := hn1
+  have hy1 : y1 = c.year :=
+    year_unique m y1 c.year (p.date.dayNum m) (by rw [← hn1']; exact hrange1) (by rw [← hcn]; exact hrangec)
+  subst hy1
+  have hnn : n1 = c.yday := by
+    rw [hyd, ← hn1']; unfold Spec.dayNumOrd; omega
+  subst hnn
+  have hyear : dateYear p.date = c.year := by
+    cases hd : p.date with
+    | cal y mo d =>
+      rw [hd] at he0
+      simp only [convert, Option.some.injEq, Spec.Date.cal.injEq] at he0
+      exact he0.1
+    | ord y n =>
+      rw [hd] at he1
+      simp only [convert, Option.some.injEq, Spec.Date.ord.injEq] at he1
+      exact he1.1
+    | week y w d => rw [hd] at hrep; exact absurd rfl hrep
+  unfold dumpCtx
+  rw [he0, he1, secondsSince_spec m p hv]
+  simp only [hyear, hux]
+
+/-! ### rendering: the `%`-formatting of the translated pieces is the POSIX text -/
+
+theorem civil_ranges (m : Mode) (p : TP) (hv : p.Valid m) (c : Civil) (hc : IsCivil m p c) :
+    1 ≤ c.month ∧ c.month ≤ 12 ∧ 1 ≤ c.day ∧ c.day ≤ 31 ∧ 1 ≤ c.yday ∧ c.yday ≤ 366 ∧
+    0 ≤ c.hour ∧ c.hour ≤ 24 ∧ 0 ≤ c.minute ∧ c.minute < 60 ∧ 0 ≤ c.second ∧ c.second < 60 := by
+  obtain ⟨hcv, hcn, hyd, h1, h2, h3, _, _⟩ := hc
+  obtain ⟨_, a1, a2, a3, a4, a5, a6, _, _⟩ := hv
+  have hr := dayNumCal_range m _ _ _ hcv
+  have hs := dby_succ m c.year
+  have hb := yearLen_bounds m c.year
+  obtain ⟨m1, m2, d1, d2⟩ := hcv
+  have hml := monthLen_bounds m c.year c.month m1 m2
+  rw [hcn] at hr
+  refine ⟨m1, m2, d1, by omega, by omega, by omega, ?_, ?_, ?_, ?_, ?_, ?_⟩ <;> omega
+
+theorem render4_split (y : Nat) : render 4 y = render 2 (y / 100) ++ render 2 (y % 100) := by
+  have h1 : y / 10 / 10 / 10 % 10 = y / 100 / 10 % 10 := by omega
+  have h2 : y / 10 / 10 % 10 = y / 100 % 10 := by omega
+  have h3 : y / 10 % 10 = y % 100 / 10 % 10 := by omega
+  have h4 : y % 10 = y % 100 % 10 := by omega
+  simp only [render, List.nil_append, List.cons_append, h1, h2, h3, h4]
+
+theorem render_year (y : Int) (h : 0 ≤ y ∧ y ≤ 9999) :
+    zpad 2 (absI y % 10000 / 100) ++ zpad 2 (absI y % 100) = render 4 y.toNat := by
+  have ha : absI y = y := by unfold absI; rw [if_neg (by omega)]
+  rw [ha, zpad_eq_render 2 _ (by omega) (by omega) (by omega),
+    zpad_eq_render 2 _ (by omega) (by omega) (by omega), render4_split]
+  have e1 : (y % 10000 / 100).toNat = y.toNat / 100 := by omega
+  have e2 : (y % 100).toNat = y.toNat % 100 := by omega
+  rw [e1, e2]
+
+theorem render_zone (z : TZ) (hz : z.Valid) :
+    [if tzSign z < 0 then '-' else '+'] ++ zpad 2 (tzHourAbs z) ++ zpad 2 (tzMinuteAbs z) =
+    (if 60 * z.h + z.mi < 0 then '-' else '+') ::
+      (render 2 ((60 * z.h + z.mi).natAbs / 60) ++ render 2 ((60 * z.h + z.mi).natAbs % 60)) := by
+  obtain ⟨h1, h2, h3, h4, h5, h6⟩ := hz
+  have hs : (tzSign z < 0) ↔ (60 * z.h + z.mi < 0) := by
+    unfold tzSign; split <;> omega
+  have eh : (tzHourAbs z).toNat = (60 * z.h + z.mi).natAbs / 60 := by
+    unfold tzHourAbs; split <;> omega
+  have em : (tzMinuteAbs z).toNat = (60 * z.h + z.mi).natAbs % 60 := by
+    unfold tzMinuteAbs; split <;> omega
+  have bh : 0 ≤ tzHourAbs z ∧ (tzHourAbs z).toNat < 100 := by unfold tzHourAbs; split <;> omega
+  have bm : 0 ≤ tzMinuteAbs z ∧ (tzMinuteAbs z).toNat < 100 := by unfold tzMinuteAbs; split <;> omega
+  rw [zpad_eq_render 2 _ (by omega) bh.1 bh.2, zpad_eq_render 2 _ (by omega) bm.1 bm.2, eh, em]
+  by_cases c : 60 * z.h + z.mi < 0
+  · simp [c, hs.mpr c]
+  · simp [c, mt hs.mp c]
+
+/-- The dump context the model builds for a point whose civil date-time is `c`. -/
+def ctxOf (p : TP) (c : Civil) : DumpCtx := ⟨c.year, c.month, c.day, c.yday, p.hh, p.mi, p.ss, p.tz, c.unix⟩
+
+theorem render_dir (m : Mode) (p : TP) (hv : p.Valid m) (c : Civil) (hc : IsCivil m p c) (dir : Dir)
+    (hy : SField.year ∈ dir.fields → 0 ≤ c.year ∧ c.year ≤ 9999) :
+    renderPieces (ctxOf p c) (piecesOf dir) = field c dir := by
+  obtain ⟨r1, r2, r3, r4, r5, r6, r7, r8, r9, r10, r11, r12⟩ := civil_ranges m p hv c hc
+  obtain ⟨_, _, _, e1, e2, e3, e4, _⟩ := hc
+  have hmo : zpad 2 c.month = render 2 c.month.toNat := zpad_eq_render 2 _ (by omega) (by omega) (by omega)
+  have hd : zpad 2 c.day = render 2 c.day.toNat := zpad_eq_render 2 _ (by omega) (by omega) (by omega)
+  have hj : zpad 3 c.yday = render 3 c.yday.toNat := zpad_eq_render 3 _ (by omega) (by omega) (by omega)
+  have hH : zpad 2 p.hh = render 2 c.hour.toNat := by
+    rw [← e1]; exact zpad_eq_render 2 _ (by omega) (by omega) (by omega)
+  have hM : zpad 2 p.mi = render 2 c.minute.toNat := by
+    rw [← e2]; exact zpad_eq_render 2 _ (by omega) (by omega) (by omega)
+  have hS : zpad 2 p.ss = render 2 c.second.toNat := by
+    rw [← e3]; exact zpad_eq_render 2 _ (by omega) (by omega) (by omega)
+  have hz := render_zone p.tz hv.2.2.2.2.2.2.2.2
+  rw [← e4] at hz
+  cases dir
+  case Y =>
+    have hY := render_year c.year (hy (by simp [Dir.fields]))
+    simpa [renderPieces, piecesOf, renderPiece, fmtOf, fmtVal, fldVal, ctxOf, field] using hY
+  case m => simpa [renderPieces, piecesOf, renderPiece, fmtOf, fmtVal, fldVal, ctxOf, field] using hmo
+  case d => simpa [renderPieces, piecesOf, renderPiece, fmtOf, fmtVal, fldVal, ctxOf, field] using hd
+  case j => simpa [renderPieces, piecesOf, renderPiece, fmtOf, fmtVal, fldVal, ctxOf, field] using hj
+  case H => simpa [renderPieces, piecesOf, renderPiece, fmtOf, fmtVal, fldVal, ctxOf, field] using hH
+  case M => simpa [renderPieces, piecesOf, renderPiece, fmtOf, fmtVal, fldVal, ctxOf, field] using hM
+  case S => simpa [renderPieces, piecesOf, renderPiece, fmtOf, fmtVal, fldVal, ctxOf, field] using hS
+  case F =>
+    have hY := render_year c.year (hy (by simp [Dir.fields]))
+    show (zpad 2 (absI c.year % 10000 / 100) ++ (zpad 2 (absI c.year % 100) ++ (['-'] ++ (zpad 2 c.month ++
+      (['-'] ++ (zpad 2 c.day ++ [])))))) = _
+    rw [← List.append_assoc, hY, hmo, hd]
+    simp [field]
+  case X =>
+    show (zpad 2 p.hh ++ ([':'] ++ (zpad 2 p.mi ++ ([':'] ++ (zpad 2 p.ss ++ []))))) = _
+    rw [hH, hM, hS]
+    simp [field]
+  case z =>
+    show ([if tzSign p.tz < 0 then '-' else '+'] ++ (zpad 2 (tzHourAbs p.tz) ++ (zpad 2 (tzMinuteAbs p.tz) ++ []))) = _
+    rw [List.append_nil, ← List.append_assoc, hz]
+    rfl
+  case s =>
+    show showInt c.unix ++ [] = _
+    rw [List.append_nil, showInt_eq_decimalInt]
+    rfl
+
+theorem render_items (m : Mode) (p : TP) (hv : p.Valid m) (c : Civil) (hc : IsCivil m p c)
+    (items : List FItem) (hy : SField.year ∈ fieldsOf items → 0 ≤ c.year ∧ c.year ≤ 9999) :
+    renderPieces (ctxOf p c) (piecesOfItems items) = posix c items := by
+  induction items with
+  | nil => rfl
+  | cons it rest ih =>
+    unfold renderPieces piecesOfItems posix at *
+    rw [List.flatMap_cons, List.flatMap_append, List.flatMap_cons]
+    cases it with
+    | lit ch => rw [ih (fun h => hy h)]; rfl
+    | conv dir =>
+      rw [ih (fun h => hy (by simp [fieldsOf, h]))]
+      congr 1
+      exact render_dir m p hv c hc dir (fun h => hy (by simp [fieldsOf, h]))
+
+/-- The `century` property (and with it the year bounds check) is requested exactly by the
+    conversions that name the year. -/
+theorem century_mem (items : List FItem) (h : Piece.fld .century ∈ piecesOfItems items) :
+    SField.year ∈ fieldsOf items := by
+  induction items with
+  | nil => simp [piecesOfItems] at h
+  | cons it rest ih =>
+    simp only [piecesOfItems, List.flatMap_cons, List.mem_append] at h
+    cases it with
+    | lit ch =>
+      rcases h with h | h
+      · simp [piecesOfItem] at h
+      · exact ih h
+    | conv dir =>
+      simp only [fieldsOf, List.mem_append]
+      rcases h with h | h
+      · left
+        cases dir <;> simp [piecesOfItem, piecesOf] at h <;> simp [Dir.fields]
+      · exact Or.inr (ih h)
 
 end IsoDT.Lemmas.Strf
